@@ -99,18 +99,23 @@ typedef struct MArr { bool live; int kind, ssize, rc; DynArray *d; int len; MVal
 static MArr A[MAXA];
 static const char *STRS[] = { "", "a", "hello", "nanolang", "x y z", "0123456789abcdef0123456789abcdef" };
 static int live_objects;   /* model: gc objects with refcount > 0 */
+static volatile uint64_t rt_calls;   /* basic blocks of runtime code executed (the runtime objects are built with trace-pc) */
+__attribute__((no_sanitize("address", "undefined"))) void __sanitizer_cov_trace_pc(void) { rt_calls++; }
+static int op_fired[64];   /* per operation kind: how often it got past its preconditions and changed or checked something */
 static void *ballast[4]; static int nballast;
 
 enum { OP_NEW, OP_NEWCAP, OP_PUSH, OP_POP, OP_GET, OP_SET, OP_INSERT, OP_REMOVE, OP_CLEAR, OP_RESERVE, OP_CLONE, OP_RETAIN, OP_RELEASE, OP_BALLAST, OP_COLLECT, OP_GCSTR,
        OP_LI_NEW, OP_LI_PUSH, OP_LI_POP, OP_LI_INSERT, OP_LI_REMOVE, OP_LI_SET, OP_LI_CLEAR, OP_LI_FREE,
        OP_LS_NEW, OP_LS_PUSH, OP_LS_POP, OP_LS_INSERT, OP_LS_REMOVE, OP_LS_SET, OP_LS_CLEAR, OP_LS_FREE,
        OP_NS_NEW, OP_NS_CONCAT, OP_NS_SUBSTR, OP_NS_CLONE, OP_NS_RESERVE, OP_NS_FREE, OP_NS_UTF8, OP_GC_RESTART, OP_GCSTR_HOLD, OP_GCSTR_DROP,
-       OP_PUSH_SELF, OP_SET_SELF, OP_LS_SET_SELF, OP_RETAIN_MANY, NOPS };
+       OP_PUSH_SELF, OP_SET_SELF, OP_LS_SET_SELF, OP_RETAIN_MANY,
+       OP_NS_CSTR, OP_NS_FROM_UTF8, OP_NS_WITHCAP, OP_WRAP, OP_WRAP_DROP, NOPS };
 static const char *opname[] = { "new", "new_with_capacity", "push", "pop", "get", "set", "insert", "remove_at", "clear", "reserve", "clone", "retain", "release", "ballast", "collect", "gc_string",
        "li_new", "li_push", "li_pop", "li_insert", "li_remove", "li_set", "li_clear", "li_free",
        "ls_new", "ls_push", "ls_pop", "ls_insert", "ls_remove", "ls_set", "ls_clear", "ls_free",
        "ns_new", "ns_concat", "ns_substring", "ns_clone", "ns_reserve", "ns_free", "ns_utf8", "gc_restart", "gc_string_hold", "gc_string_drop",
-       "push_own_element", "set_from_own_element", "ls_set_from_own_element", "retain_release_many" };
+       "push_own_element", "set_from_own_element", "ls_set_from_own_element", "retain_release_many",
+       "ns_to_cstr", "ns_from_utf8", "ns_with_capacity", "wrap_external", "wrapped_drop" };
 /* generated list types and byte strings: two slots each, modelled by plain C arrays */
 #define LMAX 300
 static struct { List_int *l; int n; int64_t v[LMAX]; } LI[2];
@@ -118,6 +123,10 @@ static struct { List_string *l; int n; const char *v[LMAX]; } LS[2];
 static struct { nl_string_t *s; size_t n; uint8_t v[4096]; } NS[3];
 static void lists_check(const char *after, int opi);
 static char *held[3]; static size_t heldlen[3];
+/* external pointers wrapped in GC objects: the user finalizer must run exactly once, when the last owner lets go */
+static struct { void *w; void *ext; int fin_at_wrap; bool opaque; } WR[3]; static int fin_calls; static void *fin_last;
+static void wr_finalizer(void *p) { fin_calls++; fin_last = p; free(p); }
+static void op_finalizer(void *p) { fin_calls++; fin_last = p; }
 static bool utf8_ref(const uint8_t *d, size_t n, long *count);
 typedef struct Op { int op, arr, kind; long x, y; } Op;
 typedef struct Plan { uint64_t seed; int junk, movere, stale, thresh, image; int nops; Op ops[256]; } Plan;
@@ -228,7 +237,7 @@ static bool utf8_ref(const uint8_t *d, size_t n, long *count) {
 static int pick_live(long x) { int c = 0; for (int i = 0; i < MAXA; i++) c += A[i].live; if (!c) return -1; int k = (int)((unsigned long)x % (unsigned)c); for (int i = 0; i < MAXA; i++) if (A[i].live && k-- == 0) return i; return -1; }
 
 static void run_plan(Plan *P) {
-    memset(held, 0, sizeof held); memset(A, 0, sizeof A); memset(LI, 0, sizeof LI); memset(LS, 0, sizeof LS); memset(NS, 0, sizeof NS); live_objects = 0; nballast = 0; vsig[0] = vmsg[0] = 0; n_checks = 0;
+    memset(held, 0, sizeof held); memset(WR, 0, sizeof WR); fin_calls = 0; memset(A, 0, sizeof A); memset(LI, 0, sizeof LI); memset(LS, 0, sizeof LS); memset(NS, 0, sizeof NS); live_objects = 0; nballast = 0; vsig[0] = vmsg[0] = 0; n_checks = 0;
     junk_byte = P->junk; move_realloc = P->movere; stale_recycle = P->stale; stale_image = P->image; ncache = 0;
     hdr_obj_size = sizeof(GCHeader) + sizeof(DynArray);
     gc_init();
@@ -239,6 +248,7 @@ static void run_plan(Plan *P) {
         int a = o->arr % MAXA;
         MArr *m = &A[a];
         int u8slot = -1;
+        uint64_t calls_before = rt_calls, alloc_before = n_alloc;
         switch (o->op) {
         case OP_NEW: case OP_NEWCAP:
             if (m->live) break;
@@ -310,7 +320,8 @@ static void run_plan(Plan *P) {
             break;
         case OP_COLLECT: gc_collect_cycles(); break;
         case OP_GCSTR: { char *s = gc_alloc_string((size_t)(o->x % 100)); if (s) { s[0] = 0; gc_release(s); } break; }
-        case OP_LI_NEW: { int k = o->arr & 1; if (LI[k].l) break; LI[k].l = o->x & 1 ? list_int_new() : list_int_with_capacity((int)(o->y % 20)); LI[k].n = 0; break; }
+        case OP_LI_NEW: { int k = o->arr & 1; if (LI[k].l) break; LI[k].l = o->x & 1 ? list_int_new() : list_int_with_capacity((int)(o->y % 20)); LI[k].n = 0;
+            for (int q = 0; q < (int)(o->y % 4); q++) { int64_t v = o->x * 13 + q; list_int_push(LI[k].l, v); LI[k].v[LI[k].n++] = v; } break; }
         case OP_LI_PUSH: { int k = o->arr & 1; if (!LI[k].l) break; for (int rpt = 0; rpt < 1 + (int)(o->y % 12) && LI[k].n < LMAX; rpt++) { int64_t v = (int64_t)o->x * 977 - rpt; list_int_push(LI[k].l, v); LI[k].v[LI[k].n++] = v; } break; }
         case OP_LI_POP: { int k = o->arr & 1; if (!LI[k].l || !LI[k].n) break; int64_t g = list_int_pop(LI[k].l); if (g != LI[k].v[LI[k].n - 1]) viol("list-pop-wrong-value", "op %d: list_int_pop", i); LI[k].n--; break; }
         case OP_LI_INSERT: { int k = o->arr & 1; if (!LI[k].l || LI[k].n >= LMAX) break; int idx = (int)((unsigned long)o->x % (unsigned)(LI[k].n + 1)); int64_t v = o->y * 31 + 5; list_int_insert(LI[k].l, idx, v);
@@ -320,7 +331,8 @@ static void run_plan(Plan *P) {
         case OP_LI_SET: { int k = o->arr & 1; if (!LI[k].l || !LI[k].n) break; int idx = (int)((unsigned long)o->x % (unsigned)LI[k].n); list_int_set(LI[k].l, idx, o->y); LI[k].v[idx] = o->y; break; }
         case OP_LI_CLEAR: { int k = o->arr & 1; if (!LI[k].l) break; list_int_clear(LI[k].l); LI[k].n = 0; break; }
         case OP_LI_FREE: { int k = o->arr & 1; if (!LI[k].l) break; list_int_free(LI[k].l); LI[k].l = NULL; LI[k].n = 0; break; }
-        case OP_LS_NEW: { int k = o->arr & 1; if (LS[k].l) break; LS[k].l = o->x & 1 ? list_string_new() : list_string_with_capacity((int)(o->y % 20)); LS[k].n = 0; break; }
+        case OP_LS_NEW: { int k = o->arr & 1; if (LS[k].l) break; LS[k].l = o->x & 1 ? list_string_new() : list_string_with_capacity((int)(o->y % 20)); LS[k].n = 0;
+            for (int q = 0; q < (int)(o->y % 4); q++) { const char *v = STRS[(unsigned long)(o->x + q) % 6]; list_string_push(LS[k].l, v); LS[k].v[LS[k].n++] = v; } break; }
         case OP_LS_PUSH: { int k = o->arr & 1; if (!LS[k].l) break; for (int rpt = 0; rpt < 1 + (int)(o->y % 12) && LS[k].n < LMAX; rpt++) { const char *v = STRS[(unsigned long)(o->x + rpt) % 6]; list_string_push(LS[k].l, v); LS[k].v[LS[k].n++] = v; } break; }
         case OP_LS_POP: { int k = o->arr & 1; if (!LS[k].l || !LS[k].n) break; char *g = list_string_pop(LS[k].l); if (!g || strcmp(g, LS[k].v[LS[k].n - 1])) viol("list-pop-wrong-value", "op %d: list_string_pop", i); free(g); LS[k].n--; break; }
         case OP_LS_INSERT: { int k = o->arr & 1; if (!LS[k].l || LS[k].n >= LMAX) break; int idx = (int)((unsigned long)o->x % (unsigned)(LS[k].n + 1)); const char *v = STRS[(unsigned long)o->y % 6]; list_string_insert(LS[k].l, idx, v);
@@ -340,24 +352,30 @@ static void run_plan(Plan *P) {
             }
             NS[k].n = n;
             NS[k].s = nl_string_new_binary(NS[k].v, n); break; }
-        case OP_NS_CONCAT: { int a1 = o->arr % 3, b1 = (int)(o->x % 3), d1 = (int)(o->y % 3); if (!NS[a1].s || !NS[b1].s || NS[d1].s || NS[a1].n + NS[b1].n > 4000) break;
+        case OP_NS_CONCAT: { int a1 = o->arr % 3, b1 = (int)(o->x % 3), d1 = (int)(o->y % 3); if (NS[d1].s && d1 != a1 && d1 != b1) { nl_string_free(NS[d1].s); NS[d1].s = NULL; NS[d1].n = 0; }
+            if (!NS[a1].s || !NS[b1].s || NS[d1].s || NS[a1].n + NS[b1].n > 4000) break;
             NS[d1].s = nl_string_concat(NS[a1].s, NS[b1].s); memcpy(NS[d1].v, NS[a1].v, NS[a1].n); memcpy(NS[d1].v + NS[a1].n, NS[b1].v, NS[b1].n); NS[d1].n = NS[a1].n + NS[b1].n; u8slot = d1; break; }
-        case OP_NS_SUBSTR: { int a1 = o->arr % 3, d1 = (int)(o->y % 3); if (!NS[a1].s || NS[d1].s || !NS[a1].n) break; size_t st = (size_t)o->x % NS[a1].n, ln = (size_t)(o->y / 3) % (NS[a1].n - st + 1);
+        case OP_NS_SUBSTR: { int a1 = o->arr % 3, d1 = (int)(o->y % 3); if (NS[d1].s && d1 != a1) { nl_string_free(NS[d1].s); NS[d1].s = NULL; NS[d1].n = 0; }
+            if (!NS[a1].s || NS[d1].s || !NS[a1].n) break; size_t st = (size_t)o->x % NS[a1].n, ln = (size_t)(o->y / 3) % (NS[a1].n - st + 1);
             NS[d1].s = nl_string_substring(NS[a1].s, st, ln); memcpy(NS[d1].v, NS[a1].v + st, ln); NS[d1].n = ln;
             /* what the new string believes about itself is checked at once, not only if a later op happens to pick it */
             u8slot = d1; break; }
-        case OP_NS_CLONE: { int a1 = o->arr % 3, d1 = (int)(o->y % 3); if (!NS[a1].s || NS[d1].s) break; NS[d1].s = nl_string_clone(NS[a1].s); memcpy(NS[d1].v, NS[a1].v, NS[a1].n); NS[d1].n = NS[a1].n; u8slot = d1; break; }
+        case OP_NS_CLONE: { int a1 = o->arr % 3, d1 = (int)(o->y % 3); if (NS[d1].s && d1 != a1) { nl_string_free(NS[d1].s); NS[d1].s = NULL; NS[d1].n = 0; }
+            if (!NS[a1].s || NS[d1].s) break; NS[d1].s = nl_string_clone(NS[a1].s); memcpy(NS[d1].v, NS[a1].v, NS[a1].n); NS[d1].n = NS[a1].n; u8slot = d1; break; }
         case OP_NS_RESERVE: { int a1 = o->arr % 3; if (!NS[a1].s) break; if (o->x & 1) nl_string_reserve(NS[a1].s, (size_t)(o->y % 5000)); else nl_string_shrink_to_fit(NS[a1].s); break; }
         case OP_NS_UTF8: u8slot = o->arr % 3; break;
         case OP_GC_RESTART: {
             /* shut the collector down (it frees everything that is still alive) and start a new session in the same process */
+            { int alive_w = 0; for (int k = 0; k < 3; k++) if (WR[k].w) alive_w++; int before = fin_calls;
             gc_shutdown();
+            if (fin_calls != before + alive_w) viol("finalizer-count", "op %d: gc_shutdown with %d wrapped pointers alive ran %d finalizer(s)", i, alive_w, fin_calls - before);
+            for (int k = 0; k < 3; k++) WR[k].w = NULL; }
             for (int k = 0; k < MAXA; k++) A[k].live = false;
             for (int k = 0; k < 3; k++) held[k] = NULL;
             nballast = 0; live_objects = 0; ncache = 0;
             gc_init(); if (P->thresh) gc_set_threshold((size_t)P->thresh);
             break; }
-        case OP_GCSTR_HOLD: { int k = o->arr % 3; if (held[k]) break; size_t n = (o->x % 4 == 0) ? 0 : (size_t)(o->x % 90);
+        case OP_GCSTR_HOLD: { int k = o->arr % 3; if (held[k]) { gc_release(held[k]); held[k] = NULL; live_objects--; break; } size_t n = (o->x % 4 == 0) ? 0 : (size_t)(o->x % 90);
             held[k] = gc_alloc_string(n); if (!held[k]) break; for (size_t j = 0; j < n; j++) held[k][j] = (char)('a' + (j + (size_t)o->y) % 26); held[k][n] = 0; heldlen[k] = n; live_objects++; break; }
         case OP_GCSTR_DROP: { int k = o->arr % 3; if (!held[k]) break; gc_release(held[k]); held[k] = NULL; live_objects--; break; }
         /* aliasing: the value handed to the container lives inside the container ((array_push a (at a i)), (set a i (at a j))) */
@@ -398,8 +416,47 @@ static void run_plan(Plan *P) {
             if (!gc_is_managed(m->d)) { viol("object-died-with-owners", "op %d: %ld retains followed by %ld releases destroyed an array that still has %d owner(s)", i, nown, nown, m->rc); break; }
             for (int e = 0; e < m->len; e++) if (!valeq(m->kind, m->ssize, &m->v[e], m->d, e)) { viol("get-wrong-value", "op %d: element %d differs from the model after retain/release of %ld owners", i, e, nown); break; }
             break; }
+        case OP_NS_CSTR: { int a1 = o->arr % 3; if (!NS[a1].s) break;
+            const char *c = nl_string_to_cstr(NS[a1].s);
+            if (!c) { viol("cstr-null", "op %d: nl_string_to_cstr returned NULL", i); break; }
+            if (memcmp(c, NS[a1].v, NS[a1].n) != 0 || c[NS[a1].n] != 0) { viol("cstr-wrong-bytes", "op %d: nl_string_to_cstr of a %zu-byte string is not those bytes followed by NUL", i, NS[a1].n); break; }
+            char ch = 0; bool in = nl_string_byte_at_safe(NS[a1].s, (size_t)o->x % (NS[a1].n + 2), &ch); size_t ix = (size_t)o->x % (NS[a1].n + 2);
+            if (in != (ix < NS[a1].n) || (in && (uint8_t)ch != NS[a1].v[ix])) { viol("byte-at-safe-wrong", "op %d: byte_at_safe(%zu) on a %zu-byte string", i, ix, NS[a1].n); break; }
+            size_t bl = 0; const void *bp = nl_string_to_binary(NS[a1].s, &bl); if (bl != NS[a1].n || (bl && memcmp(bp, NS[a1].v, bl))) { viol("to-binary-wrong", "op %d: to_binary length %zu, model %zu", i, bl, NS[a1].n); break; }
+            for (int k2 = 0; k2 < 3; k2++) if (NS[k2].s) { bool e = nl_string_equals(NS[a1].s, NS[k2].s), me = NS[a1].n == NS[k2].n && memcmp(NS[a1].v, NS[k2].v, NS[a1].n) == 0; if (e != me) { viol("equals-wrong", "op %d: nl_string_equals says %d, model %d", i, e, me); break; } }
+            break; }
+        case OP_NS_FROM_UTF8: { int k = o->arr % 3; if (NS[k].s) break; size_t n = (size_t)(o->x % 40);
+            uint64_t z = (uint64_t)o->y * 2654435761u + 7; size_t j = 0;
+            while (j < n) { z ^= z << 13; z ^= z >> 7; z ^= z << 17; int l = 1 + (int)(z % 4); static const uint8_t lead[] = { 0x41, 0xC3, 0xE2, 0xF0 };
+                if ((o->y & 2) && j + (size_t)l > n) l = 1;
+                NS[k].v[j++] = l == 1 ? (uint8_t)(0x20 + z % 0x5f) : lead[l - 1]; for (int q = 1; q < l && j < n; q++) NS[k].v[j++] = (uint8_t)(((o->y & 1) && q == 1 ? 0x40 : 0x80) + (z >> (8 * q)) % 0x40); }
+            long cnt = 0; bool want = utf8_ref(NS[k].v, n, &cnt);
+            nl_string_t *r = nl_string_from_utf8((const char *)NS[k].v, n);
+            if ((r != NULL) != want) { viol("from-utf8-accepts-differs", "op %d: nl_string_from_utf8 %s a %zu-byte input that the reference validator %s", i, r ? "accepts" : "refuses", n, want ? "accepts" : "refuses"); if (r) nl_string_free(r); break; }
+            if (r) { NS[k].s = r; NS[k].n = n; u8slot = k; }
+            break; }
+        case OP_NS_WITHCAP: { int k = o->arr % 3; if (NS[k].s) break;
+            NS[k].s = nl_string_with_capacity((size_t)(o->x % 40)); if (!NS[k].s) break; NS[k].n = 0;
+            if (o->y & 1) nl_string_ensure_null_terminated(NS[k].s);
+            const char *c = nl_string_to_cstr(NS[k].s); if (!c || c[0] != 0) viol("cstr-wrong-bytes", "op %d: empty string with capacity %ld is not \"\" as a C string", i, o->x % 40);
+            break; }
+        case OP_WRAP: { int k = o->arr % 3; if (WR[k].w) goto wrap_drop;
+            if (o->y & 1) { void *ext = malloc(16 + (size_t)(o->x % 64)); memset(ext, 0x5a, 16); WR[k].w = gc_wrap_external(ext, wr_finalizer); WR[k].ext = ext; WR[k].opaque = false; }
+            else { WR[k].w = gc_alloc_opaque(8 + (size_t)(o->x % 64), op_finalizer); WR[k].ext = WR[k].w; WR[k].opaque = true; }
+            if (!WR[k].w) break;
+            live_objects++; WR[k].fin_at_wrap = fin_calls;
+            if (gc_unwrap(WR[k].w) != WR[k].ext) viol("unwrap-wrong-pointer", "op %d: gc_unwrap does not return the wrapped pointer", i);
+            if (gc_wrap_external(WR[k].w, wr_finalizer) != WR[k].w) viol("double-wrap", "op %d: wrapping an already managed pointer must return it unchanged", i);
+            if (o->x & 1) { gc_retain(WR[k].w); gc_release(WR[k].w); }
+            break; }
+        case OP_WRAP_DROP: { int k; wrap_drop: k = o->arr % 3; if (!WR[k].w) break;
+            int before = fin_calls; void *ext = WR[k].ext;
+            gc_release(WR[k].w); WR[k].w = NULL; live_objects--;
+            if (fin_calls != before + 1 || fin_last != ext) viol("finalizer-count", "op %d: releasing the last owner of a wrapped pointer ran its finalizer %d time(s)", i, fin_calls - before);
+            break; }
         case OP_NS_FREE: { int a1 = o->arr % 3; if (!NS[a1].s) break; nl_string_free(NS[a1].s); NS[a1].s = NULL; NS[a1].n = 0; break; }
         }
+        if (rt_calls != calls_before || n_alloc != alloc_before) op_fired[o->op]++;
         if (!vsig[0] && u8slot >= 0) utf8_oracle(u8slot, o, i);
         if (!vsig[0] && o->op >= OP_LI_NEW) lists_check(opname[o->op], i);
         if (!vsig[0]) check_all(opname[o->op], i);
@@ -415,10 +472,11 @@ static void plan_gen(Plan *P, uint64_t seed, bool quick) {
     /* swarm: a random subset of op kinds is enabled per run */
     bool en[NOPS]; for (int i = 0; i < NOPS; i++) en[i] = rn(4) != 0; en[OP_NEW] = en[OP_PUSH] = true;
     if (!P->thresh) en[OP_BALLAST] = false;
+    en[OP_LI_NEW] = en[OP_LS_NEW] = en[OP_NS_NEW] = en[OP_WRAP] = true;   /* producers: without them the consumers of their family never pass their preconditions */
     int kinds_mask = 1 + (int)rn((1u << NKINDS) - 1);
     for (int i = 0; i < n; i++) {
         Op *o = &P->ops[P->nops]; int op;
-        do { uint32_t r = rn(130); if (r >= 100) { op = OP_LI_NEW + (int)rn(NOPS - OP_LI_NEW); if (rn(3) == 0) op = rn(3) == 0 ? OP_LI_NEW : rn(2) ? OP_LS_NEW : OP_NS_NEW; continue; } op = r < 14 ? OP_NEW : r < 18 ? OP_NEWCAP : r < 42 ? OP_PUSH : r < 50 ? OP_POP : r < 56 ? OP_GET : r < 63 ? OP_SET : r < 69 ? OP_INSERT : r < 76 ? OP_REMOVE : r < 78 ? OP_CLEAR : r < 82 ? OP_RESERVE : r < 87 ? OP_CLONE : r < 89 ? OP_RETAIN : r < 93 ? OP_RELEASE : r < 96 ? OP_BALLAST : r < 98 ? OP_COLLECT : OP_GCSTR; } while (!en[op]);
+        do { uint32_t r = rn(150); if (r >= 100) { op = OP_LI_NEW + (int)rn(NOPS - OP_LI_NEW); if (rn(3) == 0) op = rn(3) == 0 ? OP_LI_NEW : rn(2) ? OP_LS_NEW : OP_NS_NEW; continue; } op = r < 14 ? OP_NEW : r < 18 ? OP_NEWCAP : r < 42 ? OP_PUSH : r < 50 ? OP_POP : r < 56 ? OP_GET : r < 63 ? OP_SET : r < 69 ? OP_INSERT : r < 76 ? OP_REMOVE : r < 78 ? OP_CLEAR : r < 82 ? OP_RESERVE : r < 87 ? OP_CLONE : r < 89 ? OP_RETAIN : r < 93 ? OP_RELEASE : r < 96 ? OP_BALLAST : r < 98 ? OP_COLLECT : OP_GCSTR; } while (!en[op]);
         o->op = op; o->arr = (int)rn(64); do { o->kind = (int)rn(NKINDS); } while (!((kinds_mask >> o->kind) & 1));
         o->x = (long)rn(100000); o->y = (long)rn(100000);
         P->nops++;
@@ -474,9 +532,11 @@ int main(int argc, char **argv) {
             fprintf(o, "{\"family\":\"rt\",\"seed\":%llu,\"verdict\":\"%s\",\"property\":\"%s\",\"sig\":", (unsigned long long)P.seed, vsig[0] ? "violation" : "ok", vsig[0] ? "C20" : "");
             jstr(o, vsig); fprintf(o, ",\"detail\":"); jstr(o, vmsg); fprintf(o, ",\"plan\":"); jstr(o, pt);
             GCStats st = gc_get_stats();
-            fprintf(o, ",\"class\":\"%016llx\",\"nontrivial\":%d,\"hash\":\"%016llx\",\"simtime_us\":0,\"stats\":{},\"probes\":{\"ops\":%d,\"model_checks\":%llu,\"allocations\":%llu,\"stale_headers_recycled\":%llu,\"collections\":%zu}}\n",
+            fprintf(o, ",\"class\":\"%016llx\",\"nontrivial\":%d,\"hash\":\"%016llx\",\"simtime_us\":0,\"stats\":{},\"probes\":{\"ops\":%d,\"model_checks\":%llu,\"allocations\":%llu,\"stale_headers_recycled\":%llu,\"collections\":%zu",
                     (unsigned long long)(P.seed * 1099511628211ull ^ (uint64_t)P.nops), n_checks > 0, (unsigned long long)n_checks * 31 + st.num_collections, P.nops,
                     (unsigned long long)n_checks, (unsigned long long)n_alloc, (unsigned long long)n_recycled, st.num_collections);
+            for (int k = 0; k < NOPS; k++) if (op_fired[k]) fprintf(o, ",\"op_%s\":%d", opname[k], op_fired[k]);
+            fprintf(o, "}}\n");
             fflush(o); _exit(0);
         }
         close(pf[1]);
